@@ -1,6 +1,8 @@
 -- model files only; proof modules are built one by one (two helper files define lemmas of the
 -- same name and cannot share an importer)
 import VfsModel.Adapters
+import VfsModel.AsyncHandle
+import VfsModel.AsyncOps
 import VfsModel.AsyncWalk
 import VfsModel.Basic
 import VfsModel.Conc
